@@ -100,12 +100,20 @@ def check(tier):
     results = []
     for o in range(0, len(seqs), 2000):
         results.extend(hook.call({"op": "parse_many", "seqs": seqs[o:o + 2000]}).get("results", []))
-    lang_bad, n_acc = [], 0
+    # The property's language is the documented grammar AS DISAMBIGUATED (handles and operands are consumed greedily): a
+    # sentence of the grammar whose greedy reading fails (`@none "x" TOK = "y";` - TOK is taken as a handle) is to be rejected.
+    # Expected verdict = the recursive-descent reading of the documentation succeeds; Earley cross-checks it (RD ok => sentence).
+    lang_bad, n_acc, n_greedy, oracle_bad = [], 0, 0, []
     for s, r in zip(seqs, results):
         acc, _ = g.earley(s)
-        if (r[0] == 0) != acc:
+        rd_ok = D.dictated_tree(s, T)[0] == "ok"
+        if rd_ok and not acc:
+            oracle_bad.append(s)
+        if acc and not rd_ok:
+            n_greedy += 1
+        if (r[0] == 0) != rd_ok:
             lang_bad.append((s, r, acc))
-        n_acc += 1 if acc else 0
+        n_acc += 1 if rd_ok else 0
     # trees: the parser builds the tree the precedence list dictates
     tree_bad, n_tree = [], 0
     for s in valid_streams:
@@ -128,9 +136,12 @@ def check(tier):
                        "over all 22 kinds, token streams of generated specifications and deeply nested rule bodies; accept/reject compared with "
                        "an exact Earley recogniser of the documented grammar, trees with the recursive-descent builder of the dictated reading; "
                        "non-trivial = a sentence of the documented grammar" % (maxlen, len(REDUCED)))
-    rep.cov["input_distribution"] = {"sequences": len(seqs), "sentences": n_acc, "trees_compared": n_tree}
+    rep.cov["input_distribution"] = {"sequences": len(seqs), "sentences": n_acc, "trees_compared": n_tree, "sentences_rejected_by_greedy_reading": n_greedy}
     rep.cov["samples"] = [{"tokens": s, "result": r} for s, r in list(zip(seqs, results))[300:304]]
-    rep.obligation("language: Parse accepts exactly the documented grammar on %d token sequences (Earley oracle)" % len(seqs), not lang_bad)
+    rep.obligation("language: Parse accepts exactly the documented grammar as disambiguated on %d token sequences (recursive-descent reading, "
+                   "cross-checked by Earley; %d sentences rejected because of greedy handles)" % (len(seqs), n_greedy), not lang_bad and not oracle_bad)
+    for s in oracle_bad[:2]:
+        rep.failure("oracle", {"oracle"}, {"tokens": s, "why": "the recursive-descent reading accepts a sequence that is not a sentence of the documented grammar"})
     rep.obligation("disambiguation: ParseAndBuildAST builds the dictated tree on %d sentences" % n_tree, not tree_bad)
 
     for s, r, acc in lang_bad[:3]:
